@@ -50,7 +50,7 @@ func init() {
 	time.Local = time.UTC
 	register(&Engine{
 		Name: "fix",
-		Rule: "typed-layer structural non-canonical inputs: request/response messages and every standalone registered object type from the schema-directed populator (XML-representable text, years 1..9999; fill levels; versions 1.0-1.4) and the OASIS conformance vectors, encoded by the library in binary, XML and JSON, then mutated at item/element/member level (swap, move, duplicate, delete, zero value, unknown item at front/middle/end of a structure at a random depth, protocol version lowered/raised in the header, over-long and non-aligned big integers, non-zero padding, alternative lexical forms, member/attribute order, duplicate members, compositions of two or three of these); accepted mutants re-encoded to a fixed point in their own encoding and through the two others in every order; distinct = distinct line; nontrivial = all",
+		Rule: "typed-layer structural non-canonical inputs: request/response messages and every standalone registered object type from the schema-directed populator (XML-representable text, years 1..9999; fill levels; versions 1.0-1.4) and the OASIS conformance vectors, encoded by the library in binary, XML and JSON, then mutated at item/element/member level (swap, move, duplicate, delete, zero value, unknown item at front/middle/end of a structure at a random depth, protocol version lowered/raised in the header, over-long and non-aligned big integers, non-zero padding, alternative lexical forms, member/attribute order, duplicate members, compositions of two or three of these, and NESTED pairs: a structure moved among its siblings — in front of the fields that decide how it is decoded, to the end, swapped, duplicated — whose own content is non-canonical); accepted mutants re-encoded to a fixed point in their own encoding and through the two others in every order; distinct = distinct line; nontrivial = all",
 		Run:  runFix,
 	})
 }
@@ -566,6 +566,9 @@ func fixStrings() []string {
 	}
 	out = append(out, "\x7f", "a\u0080b", "\u0085", "a\u2028b", "\u2029", "\ufeffx", "\ufffd", "\U0010FFFF", "\\", `"`, `\"`, "</x>", "]]>", "&amp;", "&#x41;", " lead", "trail ", "\r\n", "a\rb", "tab\there",
 		"\xff", "a\xc3", "\xed\xa0\x80", "\xf4\x90\x80\x80")
+	// the same affix twice: a reader that strips ONE layer (a terminator, a blank, a byte-order mark, a pair of
+	// quotes) drifts on every hop instead of reaching a fixed point after the first
+	out = append(out, "x\x00", "x\x00\x00", "\x00\x00", "  x  ", "x\n\n", "\n\nx", "\ufeff\ufeffx", "\"\"x\"\"", "''x''", "x\t\t", "\\\\x")
 	return out
 }
 
@@ -612,7 +615,7 @@ func applyM(r *rng.R, s *mnode, i int, class string) bool {
 			return false
 		}
 		insert(n, s.kids[i].clone())
-	case "dup-alt", "dup-alt-before": // the copy disagrees with the original: which one does the decoder keep, which does the encoder write?
+	case "dup-alt", "dup-alt-before", "dup-alt-end": // the copy disagrees with the original: which one does the decoder keep, which does the encoder write?
 		if i >= n {
 			return false
 		}
@@ -622,9 +625,14 @@ func applyM(r *rng.R, s *mnode, i int, class string) bool {
 		if len(lv) == 0 || !altM(r, rng.Pick(r, lv).n) {
 			return false
 		}
-		if class == "dup-alt-before" {
+		switch class {
+		case "dup-alt-before":
 			insert(i, c)
-		} else {
+		case "dup-alt-end":
+			// after everything that was decoded in the light of the original (a decoder that lets the last
+			// occurrence win has by then read the dependent fields under the first)
+			insert(n, c)
+		default:
 			insert(i+1, c)
 		}
 	case "unk": // before child i (i == n: at the end)
@@ -701,7 +709,7 @@ func mutateM(r *rng.R, root *mnode, class string) int {
 	case "dup":
 		return site(1, rng.Pick(r, []string{"dup", "dup-end"}), func(n int) int { return r.Intn(n) })
 	case "dup-alt":
-		return site(1, rng.Pick(r, []string{"dup-alt", "dup-alt", "dup-alt", "dup-alt-before"}), func(n int) int { return r.Intn(n) })
+		return site(1, rng.Pick(r, []string{"dup-alt", "dup-alt", "dup-alt", "dup-alt-before", "dup-alt-end"}), func(n int) int { return r.Intn(n) })
 	case "unk-front":
 		return site(0, "unk", func(n int) int { return 0 })
 	case "unk-mid":
@@ -813,6 +821,93 @@ func mutateM(r *rng.R, root *mnode, class string) int {
 	return -1
 }
 
+// nestM: two mutations tied by the tree: one INSIDE a child structure C of a structure S (an unknown item, a
+// duplicate, a zero value, a deletion, a swap: content that a typed and a generic decoder of C normalise
+// differently), and one that changes C's place among its siblings (C before the fields that decide how it is
+// decoded — operation / key format / credential type / object type / attribute name —, after everything else,
+// swapped with its neighbour, duplicated). A decoder that reads C under another context on the first pass than
+// on the re-encoding (which is in canonical order) shows only on such inputs. Returns S's depth (-1: none).
+func nestM(r *rng.R, root *mnode) int {
+	var sts []mloc
+	root.structs(0, &sts)
+	type site struct {
+		s mloc
+		i int
+	}
+	var c []site
+	for _, st := range sts {
+		if len(st.n.kids) < 2 {
+			continue
+		}
+		for i, k := range st.n.kids {
+			if k.typ == 1 && len(k.kids) > 0 {
+				c = append(c, site{st, i})
+			}
+		}
+	}
+	if len(c) == 0 {
+		return -1
+	}
+	x := rng.Pick(r, c)
+	S, i := x.s.n, x.i
+	C := S.kids[i]
+	// inside C (at C itself or at one of its sub-structures)
+	var in []mloc
+	C.structs(0, &in)
+	applied := false
+	for try := 0; try < 6 && !applied; try++ {
+		t := rng.Pick(r, in).n
+		n := len(t.kids)
+		switch r.Intn(7) {
+		case 0:
+			applied = applyM(r, t, n, "unk")
+		case 1:
+			applied = applyM(r, t, 0, "unk")
+		case 2:
+			applied = n > 0 && applyM(r, t, r.Intn(n), "dup")
+		case 3:
+			applied = n > 0 && applyM(r, t, r.Intn(n), "dup-alt")
+		case 4:
+			applied = n > 0 && applyM(r, t, r.Intn(n), "zero")
+		case 5:
+			applied = n > 1 && applyM(r, t, r.Intn(n), "del")
+		default:
+			applied = n > 1 && applyM(r, t, r.Intn(n-1), "swap")
+		}
+	}
+	if !applied {
+		return -1
+	}
+	// C's place in S
+	switch r.Intn(6) {
+	case 0, 1:
+		applied = applyM(r, S, i, "move-front") || applyM(r, S, i, "move")
+	case 2:
+		applied = applyM(r, S, i, "move") || applyM(r, S, i, "move-front")
+	case 3:
+		if i > 0 {
+			S.kids[i-1], S.kids[i] = S.kids[i], S.kids[i-1]
+		} else {
+			applied = applyM(r, S, i, "swap")
+		}
+	case 4:
+		// everything that precedes C goes after it
+		if i > 0 {
+			S.kids = append(append(append([]*mnode{}, S.kids[i]), S.kids[:i]...), S.kids[i+1:]...)
+		} else {
+			applied = applyM(r, S, i, "move")
+		}
+	default:
+		// a copy of C (as mutated) in front, the original content stays where it belongs
+		cp := C.clone()
+		S.kids = append([]*mnode{cp}, S.kids...)
+	}
+	if !applied {
+		return -1
+	}
+	return x.s.depth
+}
+
 var fixBinClasses = []string{"swap", "move", "dup", "dup-alt", "unk-front", "unk-mid", "unk-end", "del", "zero", "memberless", "text", "bigpad", "pad", "boolgarb", "ver-down", "ver-up"}
 
 // fixBinMutants: `per` random single mutations of each class, compositions, and — for one structure of the
@@ -846,6 +941,12 @@ func fixBinMutants(ctx *Ctx, s *schema.Schema, tg planTarget, r *rng.R, b []byte
 			fixCase(ctx, s, tg, 0, "combo", -1, m.enc())
 		}
 	}
+	for k := 0; k < 2*per; k++ {
+		m := root.clone()
+		if d := nestM(r, m); d >= 0 {
+			fixCase(ctx, s, tg, 0, "nest", d, m.enc())
+		}
+	}
 	if !exhaust {
 		return
 	}
@@ -867,7 +968,7 @@ func fixBinMutants(ctx *Ctx, s *schema.Schema, tg planTarget, r *rng.R, b []byte
 	}
 	n := len(sts[which].n.kids)
 	depth := sts[which].depth
-	for _, cls := range []string{"swap", "move", "move-front", "dup", "dup-end", "dup-alt", "dup-alt-before", "del", "zero", "unk"} {
+	for _, cls := range []string{"swap", "move", "move-front", "dup", "dup-end", "dup-alt", "dup-alt-before", "dup-alt-end", "del", "zero", "unk"} {
 		for i := 0; i <= n; i++ {
 			m := root.clone()
 			var ms []mloc
@@ -883,7 +984,7 @@ func fixBinMutants(ctx *Ctx, s *schema.Schema, tg planTarget, r *rng.R, b []byte
 				name = "move"
 			case "dup-end":
 				name = "dup"
-			case "dup-alt-before":
+			case "dup-alt-before", "dup-alt-end":
 				name = "dup-alt"
 			}
 			fixCase(ctx, s, tg, 0, name, depth, m.enc())
@@ -1089,19 +1190,17 @@ func fixSeed(ctx *Ctx, s *schema.Schema, tg planTarget, r *rng.R, x any, per int
 // messages again (marked "acc:"), of accepted mutants — in the quick tier: about a fifth of what the unchanged
 // library yields. The thorough tier (ten times the seeds) asks for eight times as many.
 //
-// A class the library REJECTS (fewer than 2 % of at least floor-many generated mutants accepted) does not fail
-// its floor: a decoder that is strict about a class leaves nothing to show for it, which is not a C18 matter;
-// it is recorded as fix.cov.<class>.rejected-by-library. The number of GENERATED mutants per class always has
-// to reach the floor (a generator that stops producing a class is a broken check).
+// A floor missed because the library rejects the mutants is waived (see fixFloors); the number of GENERATED
+// mutants per class always has to reach the floor (a generator that stops producing a class is a broken check).
 var fixFloorTable = map[string]int{
 	"ttlv.swap": 60, "ttlv.move": 80, "ttlv.dup": 200, "ttlv.dup-alt": 120, "ttlv.unk-front": 40, "ttlv.unk-mid": 80, "ttlv.unk-end": 150,
-	"acc:ttlv.del": 120, "acc:ttlv.memberless": 25, "ttlv.zero": 50, "acc:ttlv.text": 120, "ttlv.bigpad": 20, "ttlv.pad": 100, "ttlv.boolgarb": 20, "ttlv.ver-down": 40, "acc:ttlv.ver-up": 100, "ttlv.combo": 40,
+	"acc:ttlv.del": 120, "acc:ttlv.memberless": 25, "ttlv.zero": 50, "acc:ttlv.text": 120, "ttlv.bigpad": 20, "ttlv.pad": 100, "ttlv.boolgarb": 20, "ttlv.ver-down": 40, "acc:ttlv.ver-up": 100, "ttlv.combo": 40, "ttlv.nest": 30,
 	"ttlv.unk@depth0": 80, "ttlv.unk@depth1": 25, "ttlv.unk@depth2": 60, "ttlv.unk@depth3": 60,
 	"xml.swap": 35, "xml.move": 30, "xml.dup": 80, "xml.dup-alt": 70, "acc:xml.text": 120, "xml.date-edge": 20, "xml.unk-front": 40, "xml.unk-mid": 50, "xml.unk-end": 120,
-	"acc:xml.del": 60, "xml.zero": 35, "xml.lex": 120, "xml.lex-big": 12, "xml.lex-date": 70, "xml.lex-mask": 5, "xml.attr": 120, "xml.ver-down": 40, "acc:xml.ver-up": 100, "xml.combo": 40,
+	"acc:xml.del": 60, "xml.zero": 35, "xml.lex": 120, "xml.lex-big": 12, "xml.lex-date": 70, "xml.lex-mask": 5, "xml.attr": 120, "xml.ver-down": 40, "acc:xml.ver-up": 100, "xml.combo": 40, "xml.nest": 30,
 	"acc:xml.vector": 60, "xml.unk@depth0": 30, "xml.unk@depth1": 25, "xml.unk@depth2": 50, "xml.unk@depth3": 80,
 	"json.swap": 35, "json.move": 30, "json.dup": 80, "json.dup-alt": 70, "acc:json.text": 120, "json.date-edge": 25, "json.unk-front": 40, "json.unk-mid": 50, "json.unk-end": 120,
-	"acc:json.del": 60, "json.zero": 35, "json.lex": 120, "json.lex-big": 12, "json.lex-date": 70, "json.lex-mask": 5, "json.memb": 120, "json.ver-down": 40, "acc:json.ver-up": 100, "json.combo": 40,
+	"acc:json.del": 60, "json.zero": 35, "json.lex": 120, "json.lex-big": 12, "json.lex-date": 70, "json.lex-mask": 5, "json.memb": 120, "json.ver-down": 40, "acc:json.ver-up": 100, "json.combo": 40, "json.nest": 25,
 	"json.unk@depth0": 30, "json.unk@depth1": 25, "json.unk@depth2": 50, "json.unk@depth3": 80,
 }
 
@@ -1134,42 +1233,56 @@ func fixFloors(ctx *Ctx) {
 		fk = append(fk, k)
 	}
 	sort.Strings(fk)
-	// the unk@depth sub-counts follow their classes
-	unkRejected := true
-	for _, enc := range []string{"ttlv", "xml", "json"} {
-		for _, c := range []string{"unk-front", "unk-mid", "unk-end"} {
-			if st := fixCount[enc+"."+c]; st != nil && st.accepted*50 >= st.generated {
-				unkRejected = false
-			}
-		}
-	}
+	// A floor that is missed because the library REJECTS the mutants is waived: a decoder that has become strict
+	// about a class (entirely, or except where the mutant is canonical again — a repeated list element, an
+	// unknown item inside an opaque payload) leaves nothing to show for it, which is not a C18 matter. What is
+	// missing must be covered by rejections (accepted-and-counted + rejected >= floor); what then still fails is
+	// a class whose mutants are accepted but no longer count (the generator has rotted). The waiver is recorded
+	// as fix.cov.<class>.short-by-rejection. The unk@depth sub-counts (no generated count of their own) follow the
+	// unk-* classes of their encoding.
+	waivedEnc := map[string]bool{}
 	for _, k := range fk {
 		key, acc := strings.CutPrefix(k, "acc:")
+		if strings.Contains(key, "@depth") {
+			continue
+		}
 		got, what := 0, "accepted non-canonical"
-		if st := fixCount[key]; st != nil {
+		st := fixCount[key]
+		if st != nil {
 			got = st.noncanon
 			if acc {
 				got, what = st.accepted, "accepted"
 			}
 		}
 		floor := fixFloorTable[k] * mult
-		st := fixCount[key]
 		switch {
-		case strings.Contains(key, "@depth"):
-			// a sub-count of the unk-* classes (no generated count of its own)
-			if got < floor && !unkRejected {
-				ctx.Res.Fail(fmt.Sprintf("fix: coverage floor not met for %s: %d %s mutants, floor %d", key, got, what, floor))
-			}
 		case st == nil || st.generated < floor:
 			gen := 0
 			if st != nil {
 				gen = st.generated
 			}
 			ctx.Res.Fail(fmt.Sprintf("fix: coverage floor not met for %s: only %d mutants generated, floor %d (the generator no longer produces the class)", key, gen, floor))
-		case st.accepted*50 < st.generated:
-			ctx.Res.Distribution["fix.cov."+key+".rejected-by-library"] = st.generated
-		case got < floor:
-			ctx.Res.Fail(fmt.Sprintf("fix: coverage floor not met for %s: %d %s of %d generated mutants, floor %d (the class is exercised too little to show anything about it)", key, got, what, st.generated, floor))
+		case got >= floor:
+		case got+(st.generated-st.accepted) >= floor:
+			ctx.Res.Distribution["fix.cov."+key+".short-by-rejection"] = got
+			if enc, c, _ := strings.Cut(key, "."); strings.HasPrefix(c, "unk-") {
+				waivedEnc[enc] = true
+			}
+		default:
+			ctx.Res.Fail(fmt.Sprintf("fix: coverage floor not met for %s: %d %s and %d rejected of %d generated mutants, floor %d (the class is exercised too little to show anything about it)", key, got, what, st.generated-st.accepted, st.generated, floor))
+		}
+	}
+	for _, k := range fk {
+		if !strings.Contains(k, "@depth") {
+			continue
+		}
+		got := 0
+		if st := fixCount[k]; st != nil {
+			got = st.noncanon
+		}
+		floor := fixFloorTable[k] * mult
+		if enc, _, _ := strings.Cut(k, "."); got < floor && !waivedEnc[enc] {
+			ctx.Res.Fail(fmt.Sprintf("fix: coverage floor not met for %s: %d accepted non-canonical mutants, floor %d", k, got, floor))
 		}
 	}
 	for _, enc := range []string{"ttlv", "xml", "json", "generic"} {
